@@ -128,11 +128,21 @@ def showRes (r : PRes PExpr) : String :=
   | .err e s => s!"{showErr e} rest={s.rest.length}"
   | .fuel => "fuel"
 
+/-- `EXTRACT ( part FROM …` puts `part.to_lowercase()` into the call name; the model lower-cases ASCII only
+(`lowerChars`), so a part with a non-ASCII character needs the Unicode case mapping, an external fact no case ships:
+such a token vector is answered `skip` (not compared). -/
+def needsUnicodeLower : List Tok → Bool
+  | .kw .extract :: .lp :: .ident n :: rest => n.any (fun c => c.toNat ≥ 128) || needsUnicodeLower (.lp :: .ident n :: rest)
+  | _ :: rest => needsUnicodeLower rest
+  | [] => false
+
 /-- `Parser::new(&bin, &un, tokens).parse_expression()` on a non-empty token vector -/
 def run (toks : List PTok) : String :=
   match toks with
   | [] => "bad-case"
-  | t :: rest => showRes (Parse.parseExpr Generated.precTables (fuelFor toks.length) ⟨t, rest⟩)
+  | t :: rest =>
+    if needsUnicodeLower (toks.map (·.tok)) then "skip oracle-missing:unicode-lowercase" else
+    showRes (Parse.parseExpr Generated.precTables (fuelFor toks.length) ⟨t, rest⟩)
 
 def handle (args : List Sexp) : String :=
   match args with
